@@ -104,21 +104,26 @@ CLAIMED = {
     "C07": claim(
         "Lean theorems: Value::operator>> emits the opcode byte for an opcode, the minimal push of the script number for an integer and the "
         "minimal push of exactly the given bytes for data (int_emits_minimal, data_emits_minimal); the minimal push decodes to one instruction "
-        "that places exactly those bytes and satisfies the minimal-push rule (minimal_push_decodes, any length < 2^32). The lexical layer "
-        "(token classification, bracket nesting) is tied by correspondence against an independent grammar-based spec compiler: every opcode "
-        "name, all OP_xNN, all 1-2 byte hex literals, integer boundaries, nesting to depth 8, through Value::parse_args in-process and the btcc binary. "
-        "Known finding: OP_xff.",
+        "that places exactly those bytes and satisfies the minimal-push rule (minimal_push_decodes, any length < 2^32). Lexical layer (C07Lexer): "
+        "the tokenizer of a bracket body yields the grammar's words (tokenize_eq_splitWords), word classification equals the grammar's token reader for "
+        "every word — canonical decimal integers in the int64 range, opcode names with/without OP_ and OP_xNN (getOpCode_eq_readOpcode for all byte strings), "
+        "hex literals (classify_eq_readTok) —, and for every program of the grammar at any nesting depth btcc assembles exactly compileToks of its tokens "
+        "(btcc_eq_compile), excluding the token OP_xff, whose mis-assembly is the known finding with a proved witness (btcc_opxff). Correspondence against the "
+        "independent grammar-based spec compiler: every opcode name, all OP_xNN, all 1-2 byte hex literals, integer boundaries, nesting to depth 8, through "
+        "Value::parse_args in-process and the btcc binary.",
         "DESIGN.md section 6 (C07)", "Lean 4 proof of the emission layer + grammar-directed differential correspondence for the lexer"),
     "C08": claim(
         "Lean theorems: output/exit status are a function of the run-to-completion outcome (C08_output), run-to-completion equals stepping "
-        "(C08_same_as_stepping), and no operation step ever ends abnormally — success, script error or caught exception only (step_noabn, "
-        "for every opcode, script, stack, flags; C08_no_abnormal_partial: the P2SH hand-over assertion is covered by correspondence only). "
+        "(C08_same_as_stepping), and neither a step nor the run to completion ever ends abnormally — success, script error or caught exception only "
+        "(step_noabn for every opcode, script, stack, flags; C15_run_never_abnormal / C15_noninteractive_never_abnormal for whole sessions). "
         "Correspondence: the real btcdeb binary with pipes/ptys as stdin/stdout, script on stdin or argv, -q/--debug/DEBUG_* variants.",
         "DESIGN.md section 6 (C08)", "Lean 4 proof (Hoare-style no-abnormal-outcome over the model) + process-level differential runs under pipes and ptys"),
     "C09": claim(
         "Lean theorems: on the specification every flag only restricts (execInstr_mono, evalScript_mono: success under B implies the identical "
         "run under any A ⊆ B, for every instruction incl. signature opcodes), transferred to debugger sessions through the C01 refinement "
-        "(C09_mono_session); the svf table and the standard set are the generated tables proved equal to the spec. Correspondence: every "
+        "(C09_mono_session); the svf table and the standard set are the generated tables proved equal to the spec; svf_parse_flags (with its 128-byte buffer "
+        "bound) equals the specification of the option on every text for 32-bit flag words (parse_exact_partial, parse_exact_iff with the exact difference set "
+        "beyond unsigned int), changes only bits of named flags (parse_only_restricts_or_extends), and svf_string lists exactly the named set bits (svf_string_exact). Correspondence: every "
         "+/-NAME, random/malformed lists and names up to 1000 characters through svf_parse_flags in-process, --default-flags, end-to-end -f probes, "
         "inclusion chains of flag sets on execution inputs.",
         "DESIGN.md section 6 (C09)", "Lean 4 monotonicity proof (simulation between two runs) + differential correspondence of the flag parser"),
